@@ -412,6 +412,33 @@ impl Check {
 
 	/// Evaluate one case: returns Ok(()) for pass or known finding, Err(fail) for a new violation.
 	fn eval<C>(&self, oracle: &(dyn Fn(&C, &mut Obs) -> Result<(), Fail> + Sync), case: &C, obs: &mut Obs) -> Result<(), Fail> {
+		// A failure caused by the operating system running out of threads, memory mappings or
+		// file descriptors says nothing about the property (long campaigns with thousands of
+		// SQLite connection pools can get there): wait, try the case again, and give up as a
+		// machinery problem (exit 2) if it persists - never report it as a violation.
+		for attempt in 0..4 {
+			let mut fresh = Obs::default();
+			match self.eval_once(oracle, case, &mut fresh) {
+				Err(f) if is_resource_exhaustion(&f.what) => {
+					if attempt == 3 {
+						eprintln!("MACHINERY-ERROR property={} operating-system resources exhausted: {}", self.id, f.what);
+						crate::util::cleanup_tmp();
+						std::process::exit(2);
+					}
+					std::thread::sleep(std::time::Duration::from_secs(10 * (attempt + 1)));
+				}
+				other => {
+					obs.labels.append(&mut fresh.labels);
+					obs.counters.append(&mut fresh.counters);
+					obs.nontrivial |= fresh.nontrivial;
+					return other;
+				}
+			}
+		}
+		unreachable!()
+	}
+
+	fn eval_once<C>(&self, oracle: &(dyn Fn(&C, &mut Obs) -> Result<(), Fail> + Sync), case: &C, obs: &mut Obs) -> Result<(), Fail> {
 		let r = guard(|| oracle(case, obs));
 		let r = match r {
 			Ok(r) => r,
@@ -908,6 +935,22 @@ impl Agg {
 			}
 		}
 	}
+}
+
+/// does a failure text speak of exhausted operating-system resources?
+pub fn is_resource_exhaustion(text: &str) -> bool {
+	[
+		"Resource temporarily unavailable",
+		"Cannot allocate memory",
+		"Too many open files",
+		"failed to spawn thread",
+		"can't spawn worker thread",
+		"failed to allocate an alternative stack",
+		"No space left on device",
+		"unable to open database file",
+	]
+	.iter()
+	.any(|p| text.contains(p))
 }
 
 pub fn die(msg: &str) -> ! {
